@@ -70,7 +70,7 @@ func splitList(s string) []string {
 	return out
 }
 
-// inc <cfg> <startdb> <base> <seg>...    cfg = dbblack|dbwhite|keyblack|keywhite|lua|tdb|resume|scount|ssize
+// inc <cfg> <startdb> <base> <seg>...    cfg = dbblack|dbwhite|keyblack|keywhite|lua|tdb|resume|scount|ssize[|delay channel capacity, metric on]
 //                                        seg = <hexbytes>@<pause ms before writing>
 func setIncrConf(cfg string) bool {
 	f := strings.Split(cfg, "|")
@@ -84,10 +84,17 @@ func setIncrConf(cfg string) bool {
 	conf.Options.SenderCount = uint(n)
 	sz, _ := strconv.ParseUint(f[8], 10, 64)
 	conf.Options.SenderSize = sz
-	conf.Options.Metric = false
+	// optional 10th field: capacity of the delay-sampling channel; > 0 switches the metric path of the sender on
+	delayCap = 0
+	if len(f) > 9 {
+		delayCap, _ = strconv.Atoi(f[9])
+	}
+	conf.Options.Metric = delayCap > 0
 	conf.Options.Id = "verif"
 	return f[6] == "1"
 }
+
+var delayCap int
 
 var incrId = 1000
 
@@ -110,25 +117,44 @@ func batchIncr(cases [][]string, out *bufio.Writer) {
 				startDb, _ := strconv.Atoi(c[3])
 				base, _ := strconv.ParseInt(c[4], 10, 64)
 				ds := dbSync.VerifNew(id, "src:6379", resume, startDb, base, "runid-"+strconv.Itoa(id%7), "redis-shake-checkpoint", int(conf.Options.SenderCount))
+				if delayCap > 0 {
+					ds.VerifSetDelayChannel(delayCap)
+				}
 				pr, pw := io.Pipe()
 				conn := &recConn{last: time.Now()}
 				go ds.VerifParse(bufio.NewReaderSize(pr, 4096))
 				go ds.VerifSend(conn)
-				for _, seg := range c[5:] {
-					p := strings.SplitN(seg, "@", 2)
-					ms, _ := strconv.Atoi(p[1])
-					if ms > 0 {
-						time.Sleep(time.Duration(ms) * time.Millisecond)
+				// the source stream is written from its own goroutine: if parser and sender stall (a full queue
+				// behind a blocked sender) the write never returns, and that must be an observation, not a hang
+				wdone := make(chan struct{})
+				go func() {
+					defer close(wdone)
+					for _, seg := range c[5:] {
+						p := strings.SplitN(seg, "@", 2)
+						ms, _ := strconv.Atoi(p[1])
+						if ms > 0 {
+							time.Sleep(time.Duration(ms) * time.Millisecond)
+						}
+						pw.Write(unhex(p[0]))
 					}
-					pw.Write(unhex(p[0]))
-				}
-				// quiescence: two ticker periods without any Send/Flush
+				}()
+				// quiescence: the whole stream written and two ticker periods without any Send/Flush;
+				// or nothing at all for 6 s while the stream is still not accepted (stalled)
+				written := false
 				for {
 					time.Sleep(100 * time.Millisecond)
+					select {
+					case <-wdone:
+						written = true
+					default:
+					}
 					conn.mu.Lock()
 					idle := time.Since(conn.last)
 					conn.mu.Unlock()
-					if idle > 1200*time.Millisecond {
+					if written && idle > 1200*time.Millisecond {
+						break
+					}
+					if !written && idle > 6*time.Second {
 						break
 					}
 				}
